@@ -30,7 +30,8 @@ META = {
         "designation."
         ' Also: no word wildcard inside multisec_regex / twprge_regex, cull vocabulary is the accepted connector set, sub_scrubber replaces by position, layout dispatch chains are exhaustive.'
         " Round 7: the marker walk starts at the first marker; every accumulator of rebuild_sec_within reaches the stored description under a guard that looks at it; cleanup_desc word tests; pm_regex does not fire inside any word of an ordinary-words corpus (found and fixed: 'shipment', 'primary')."
-        " Round 8: the unused list is not emptied before a return; the chunker's text is flagged from PLSSParser's own list; section patterns starting inside a word ('bisect 14') are a known finding."),
+        " Round 8: the unused list is not emptied before a return; the chunker's text is flagged from PLSSParser's own list; section patterns starting inside a word ('bisect 14') are a known finding."
+        ' Round 9: every chunk is handed to a ChunkParser; an empty section list (filtered unpacker result) is reported as a vanishing block.'),
     'families': ['SINK', 'ORDER', 'TBL', 'STRIPSET'],
 }
 
